@@ -218,6 +218,23 @@ class MapList:
         return chunks[0] if len(chunks) == 1 else "(" + " ++ ".join(chunks) + ")"
 
 
+class SColl:
+    """a list / set of strings that is a variable (or an expression) of the generated function"""
+
+    def __init__(self, lean):
+        self.lean_text = lean
+
+    def lean(self):
+        return self.lean_text
+
+
+class SOptColl:
+    """an optional collection of strings (`None` or a list / set)"""
+
+    def __init__(self, lean):
+        self.lean_name = lean
+
+
 class ReRes:
     """result of `pattern.match(s)` / `pattern.search(s)` on a symbolic string: only its being None or not is used"""
 
@@ -412,6 +429,8 @@ class Interp:
             return self.decide(("bool", v.lean()), ("bool", v.lean()), 2) == 0
         if isinstance(v, ReRes):
             return self.decide(("bool", v.lean_text), ("bool", v.lean_text), 2) == 0
+        if isinstance(v, SColl):
+            return self.decide(("nonempty", v.lean()), ("nonempty", v.lean()), 2) == 0
         if isinstance(v, ListObj):
             self.normalize_list(v)
             guard = 0
@@ -613,7 +632,7 @@ class Interp:
             return v.cls
         if type(v).__name__ == "Pattern" and name in ("match", "search"):
             return ("remethod", name, v.pattern)
-        if isinstance(v, (str, SStr)) and name in ("endswith", "startswith"):
+        if isinstance(v, (str, SStr)) and name in ("endswith", "startswith", "split", "format"):
             return ("strmethod", name, v)
         if isinstance(v, dict) and name in ("update", "get"):
             return ("dictmethod", name, v)
@@ -674,6 +693,25 @@ class Interp:
             return self.call_function(f.fn, [f.obj] + args, kwargs, owner=f.owner, self_obj=f.obj)
         if isinstance(f, tuple) and f and f[0] == "rechook":
             return self.rec_hooks[f[1]](self, f[2], args, kwargs)
+        if isinstance(f, tuple) and f and f[0] == "strmethod" and f[1] == "split":
+            if len(args) != 1 or not isinstance(args[0], str) or len(args[0]) != 1 or kwargs:
+                raise Untranslatable("split with unusual arguments")
+            if isinstance(f[2], str):
+                return ListObj([("elem", x) for x in f[2].split(args[0])])
+            return SColl("(PyPrim.splitOn %s %s)" % (lean_char(args[0]), str_lean(f[2])))
+        if isinstance(f, tuple) and f and f[0] == "strmethod" and f[1] == "format":
+            if args or not isinstance(f[2], str):
+                raise Untranslatable("format with positional arguments / symbolic template")
+            import re as _re
+            out = ""
+            pos = 0
+            for m in _re.finditer(r"\{(\w+)\}", f[2]):
+                out = str_cat(out, f[2][pos:m.start()])
+                if m.group(1) not in kwargs or not isinstance(kwargs[m.group(1)], (str, SStr)):
+                    raise Untranslatable("format field %s" % m.group(1))
+                out = str_cat(out, kwargs[m.group(1)])
+                pos = m.end()
+            return str_cat(out, f[2][pos:])
         if isinstance(f, tuple) and f and f[0] == "strmethod" and f[1] in ("endswith", "startswith"):
             (x,) = args
             if isinstance(f[2], str) and isinstance(x, str):
@@ -697,6 +735,8 @@ class Interp:
                     out = str_cat(str_cat(out, f[2]), x)
                 return out
             if isinstance(seq, MapList):
+                return SStr.var("(joinWith %s %s)" % (str_lean(f[2]), seq.lean()))
+            if isinstance(seq, SColl):
                 return SStr.var("(joinWith %s %s)" % (str_lean(f[2]), seq.lean()))
             raise Untranslatable("join of %r" % (seq,))
         import functools as _ft, math as _math
@@ -807,6 +847,8 @@ class Interp:
                 return len(a)
             if isinstance(a, SStr):
                 return SInt("len", a)
+            if isinstance(a, SColl):
+                return SInt("var", "((%s).length : Int)" % a.lean())
             if isinstance(a, list):
                 return len(a)
             if isinstance(a, ListObj):
@@ -1205,6 +1247,8 @@ class Interp:
     def binop(self, op, a, b):
         if isinstance(op, ast.Add) and isinstance(a, ListObj) and isinstance(b, ListObj):
             return ListObj(list(a.segs) + list(b.segs))
+        if isinstance(op, ast.Add) and isinstance(a, SColl) and isinstance(b, SColl):
+            return SColl("(%s ++ %s)" % (a.lean(), b.lean()))
         if isinstance(op, ast.Add):
             if isinstance(a, (str, SStr)) or isinstance(b, (str, SStr)):
                 if isinstance(a, SOpt) or isinstance(b, SOpt):
@@ -1488,6 +1532,18 @@ class Interp:
             return self.eval(e.body if self.truth(self.eval(e.test, frame)) else e.orelse, frame)
         raise Untranslatable("expression %s" % type(e).__name__)
     def compare(self, op, a, b):
+        if isinstance(op, (ast.Is, ast.IsNot)) and (isinstance(a, SOptColl) or isinstance(b, SOptColl)):
+            r = a if isinstance(a, SOptColl) else b
+            o2 = b if isinstance(a, SOptColl) else a
+            if o2 is not None:
+                raise Untranslatable("identity test of an optional collection")
+            key = ("optcoll", r.lean_name)
+            if key not in self.known:
+                x = self.fresh("xs")
+                c = self.o.choose(("issome", r.lean_name, x), 2)
+                self.known[key] = (c, x)
+            isnone = self.known[key][0] == 1
+            return isnone if isinstance(op, ast.Is) else not isnone
         if isinstance(op, (ast.Is, ast.IsNot)) and (isinstance(a, ReRes) or isinstance(b, ReRes)):
             r = a if isinstance(a, ReRes) else b
             o2 = b if isinstance(a, ReRes) else a
@@ -1503,6 +1559,12 @@ class Interp:
             else:
                 r = a is b
             return r if isinstance(op, ast.Is) else not r
+        if isinstance(op, (ast.Gt, ast.Lt, ast.GtE, ast.LtE)) and isinstance(a, (int, SInt)) and \
+                isinstance(b, (int, SInt)) and not isinstance(a, bool) and not isinstance(b, bool):
+            if isinstance(a, int) and isinstance(b, int):
+                return {ast.Gt: a > b, ast.Lt: a < b, ast.GtE: a >= b, ast.LtE: a <= b}[type(op)]
+            sym = {ast.Gt: ">", ast.Lt: "<", ast.GtE: "≥", ast.LtE: "≤"}[type(op)]
+            return SBool("(decide (%s %s %s))" % (int_lean(a), sym, int_lean(b)))
         if isinstance(op, ast.Lt) and isinstance(a, tuple) and a and a[0] == "signof" and b == 0 and \
                 not isinstance(b, bool):
             return SBool("(PyPrim.signNegative %s)" % a[1].lean_name)
@@ -1533,6 +1595,18 @@ class Interp:
             if isinstance(a, str) and isinstance(b, str):
                 r = a in b
                 return (not r) if neg else r
+            if isinstance(b, SOptColl):
+                key = ("optcoll", b.lean_name)
+                if key not in self.known:
+                    x = self.fresh("xs")
+                    c = self.o.choose(("issome", b.lean_name, x), 2)
+                    self.known[key] = (c, x)
+                if self.known[key][0] == 1:
+                    raise PyRaise(TypeError)
+                b = SColl(self.known[key][1])
+            if isinstance(b, SColl) and isinstance(a, (str, SStr)):
+                t = "((%s).contains %s)" % (b.lean(), str_lean(a))
+                return SBool("(!%s)" % t) if neg else SBool(t)
             if isinstance(b, dict) and isinstance(a, (str, int, bool)):
                 r = a in b
                 return (not r) if neg else r
@@ -1713,6 +1787,8 @@ def emit_raise(e):
                                                         ", ".join(emit_fmt_arg(a) for a in f.args))
     if len(payload) == 1 and isinstance(payload[0], str):
         return "Except.error (PyErr.fmt %s %s [])" % (lean_string(cls), lean_string(payload[0]))
+    if len(payload) == 1 and isinstance(payload[0], SStr):
+        return "Except.error (PyErr.msg %s %s)" % (lean_string(cls), payload[0].lean())
     return "Except.error (PyErr.exc %s)" % lean_string(cls)
 
 PATTERN_FIELD_COUNT = {k: len(v[1]) for k, v in CLASS_TABLE.items()}
@@ -2436,4 +2512,75 @@ def translate_check(T, C):
             out.append(("check_%s" % cname, holder["p"], build_tree(paths, 0, 1), None, len(paths)))
         except Untranslatable as e:
             out.append(("check_%s" % cname, None, None, str(e), 0))
+    return out
+
+
+# ---------------------------------------------------------------------------------------------
+# CheckNestedFields: the decision on a term, and the prefix a search field hands down
+# ---------------------------------------------------------------------------------------------
+
+def translate_nesting(C):
+    """`CheckNestedFields._check_final_operation(node, {"prefix": px})` with the checker's five collections as
+    variables, and the prefix `visit_search_field` computes for the expression of a field."""
+    out = []
+
+    def checker(it):
+        me = Obj(C.CheckNestedFields, lean="@self")
+        me.attrs["nested_prefixes"] = SColl("nestedPrefixes")
+        me.attrs["object_prefixes"] = SColl("objectPrefixes")
+        me.attrs["nested_fields"] = SColl("nestedFields")
+        me.attrs["sub_fields"] = SOptColl("subFields")
+        me.attrs["object_fields"] = SOptColl("objectFields")
+        me.attrs["track_parents"] = True
+        return me
+    params = ["(nestedPrefixes objectPrefixes nestedFields : List Str)", "(subFields objectFields : Option (List Str))",
+              "(px : List Str)", "(nodeStr : Str)"]
+
+    def run_final(oracle):
+        it = Interp(oracle)
+        me = checker(it)
+        it.rec_hooks["__str__"] = lambda interp, obj, args, kwargs: SStr.var("nodeStr")
+        node = Obj(None, lean="node", lay="node.lay")
+        f = it.getattr_(me, "_check_final_operation", None)
+        try:
+            res = it.call(f, [node, {"prefix": SColl("px")}], {}, None)
+        except PyRaise as e:
+            return emit_raise(e)
+        if res is not None:
+            raise Untranslatable("_check_final_operation returns something")
+        return "Except.ok ()"
+    try:
+        paths = explore(run_final)
+        out.append(("check_final_operation", params, "Unit", build_tree(paths, 0, 1), None, len(paths)))
+    except Untranslatable as e:
+        out.append(("check_final_operation", None, "Unit", None, str(e), 0))
+
+    def run_prefix(oracle):
+        it = Interp(oracle)
+        me = checker(it)
+        node = Obj(None, lean="node", lay="node.lay")
+        node.attrs["name"] = SStr.var("name")
+        captured = {}
+
+        def rec_generic(interp, obj, args, kwargs):
+            captured["ctx"] = args[1] if len(args) > 1 else kwargs.get("context")
+            return ListObj([])
+        it.rec_hooks["generic_visit"] = rec_generic
+        me.attrs["generic_visit"] = ("rechook", "generic_visit", me)
+        f = it.getattr_(me, "visit_search_field", None)
+        try:
+            it.call(f, [node, {"prefix": SColl("px"), "other": SStr.var("other")}], {}, None)
+        except PyRaise as e:
+            return emit_raise(e)
+        ctx = captured.get("ctx")
+        if not isinstance(ctx, dict) or not isinstance(ctx.get("prefix"), SColl):
+            raise Untranslatable("visit_search_field does not hand a prefix down")
+        kept = isinstance(ctx.get("other"), SStr) and ctx["other"].lean() == "other"
+        return "Except.ok (%s, %s)" % (ctx["prefix"].lean(), "true" if kept else "false")
+    try:
+        paths = explore(run_prefix)
+        out.append(("search_field_prefix", ["(px : List Str)", "(name other : Str)"], "(List Str × Bool)",
+                    build_tree(paths, 0, 1), None, len(paths)))
+    except Untranslatable as e:
+        out.append(("search_field_prefix", None, "(List Str × Bool)", None, str(e), 0))
     return out
